@@ -130,6 +130,15 @@ def _check_init_defaults(repo, init, name_param, mac_fn, callable_attr=None):
     return None
 
 
+def _subterms(t):
+    stack = [t]
+    while stack:
+        x = stack.pop()
+        if isinstance(x, tuple):
+            yield x
+            stack.extend(y for y in x if isinstance(y, tuple))
+
+
 def check(repo):
     r1 = Rule("R16.1", "P_hash recurrence of RFC 5246")
     r2 = Rule("R16.2", "exactly the requested number of bytes")
@@ -269,8 +278,15 @@ def check(repo):
         RES = S.mv("RES")
         ctr = shape.counter_of(sm2)
         f2 = None
+        Cv = None
         if ctr is not None and ctr[1] == ("const", 1) and ctr[2] == ("const", 1):
             Cv = ("var", ctr[0])
+        elif ctr is not None and ctr[1] == ("const", 0) and ctr[2] == ("const", 1):
+            # a count of the blocks produced so far (0, 1, 2, ...), the block counter being that count + 1
+            for cand in (("cat", (("var", ctr[0]), ("const", 1))), ("cat", (("const", 1), ("var", ctr[0])))):
+                if any(cand in list(_subterms(v)) for v in sm2.step.values()):
+                    Cv = cand
+        if Cv is not None:
             blk = ("call", ("method", ("call", ("fn", "self.hash_func"), (("cat", (cmsg, ("call", ("fn", "int_to_bytes"), (Cv,), ()))),), ()), "digest"), (), ())
             eqs2 = [(("const", b""), lambda asg: sm2.init.get(asg["RES"])),
                     (("cat", (RES, blk)), lambda asg: sm2.step.get(asg["RES"]))]
@@ -285,6 +301,14 @@ def check(repo):
             ln = ("call", ("fn", "len"), (("var", asg2["RES"]),), ())
             cc = shape.continue_condition(sm2)
             oku = cc == (("Lt", ln, olen), True)
+            if not oku and cc is not None and cc[1] is True and cc[0][0] == "Lt" and cc[0][2] == olen and cc[0][1][0] == "var":
+                # a running total kept beside the result: starts at 0 and grows by the length of exactly what is appended to the result
+                Lv = cc[0][1][1]
+                rs = sm2.step.get(asg2["RES"])
+                app = rs[1][1] if rs is not None and rs[0] == "cat" and len(rs[1]) == 2 and rs[1][0] == ("var", asg2["RES"]) else None
+                if app is not None and sm2.init.get(Lv) == ("const", 0) and sm2.step.get(Lv) in (
+                        ("cat", (("var", Lv), ("call", ("fn", "len"), (app,), ()))), ("cat", (("call", ("fn", "len"), (app,), ()), ("var", Lv)))):
+                    oku = True
             r2.require(oku, ce, "expands until long enough", "_ctr_expand keeps expanding while %s; expected while len(result) < output_length" % (cc,), sm2.loop)
             r2.require(sm2.ret == ("slice", ("var", asg2["RES"]), None, olen), ce, "truncated to output_length", "_ctr_expand returns %s" % (S.show(sm2.ret) if sm2.ret else None))
     hmsg = ("var", hc.params[1])
